@@ -627,3 +627,92 @@ func ruleDFCOVER(c *Ctx, r *Report) {
 		r.ok(rule, "wrapper|leaf-kinds", c.pos(pt.Wrapper.Pos()), "all leaf kinds wrapped when a field is set")
 	}
 }
+
+// NT-OPAQUE (C09/C05/C06): a production looks at its window only.
+func ruleNTOPAQUE(c *Ctx, r *Report) {
+	const rule = "NT-OPAQUE"
+	r.doc(rule, "in every reducer (and every helper it hands the operator stack to) the nonTerminals parameter is only measured, sliced from the top, handed on or returned — its elements are never read: what a production builds depends on its window and the default field only, not on the operators pending around it (otherwise redundant parentheses or a different context change the tree)")
+	pt := c.prodTable()
+	if len(pt.Reducers) == 0 {
+		r.bad(rule, "anchor", "-", "no reducers")
+		return
+	}
+	type fp struct {
+		f *ssa.Function
+		i int
+	}
+	seen := map[fp]bool{}
+	var work []fp
+	for _, red := range pt.Reducers {
+		if len(red.Params) >= 2 {
+			work = append(work, fp{red, 1})
+		}
+	}
+	if reduceFn := c.pkgFunc(pkgReduce, "Reduce"); reduceFn != nil && len(reduceFn.Params) >= 2 {
+		work = append(work, fp{reduceFn, 1})
+	}
+	n := 0
+	for len(work) > 0 {
+		cur := work[len(work)-1]
+		work = work[:len(work)-1]
+		if seen[cur] || len(cur.f.Blocks) == 0 {
+			continue
+		}
+		seen[cur] = true
+		n++
+		param := cur.f.Params[cur.i]
+		// values that are the parameter itself (through phis / local cells / type changes)
+		isParam := func(v ssa.Value) bool {
+			return c.resolve(v, nil) == ssa.Value(param)
+		}
+		okAll := true
+		for _, b := range cur.f.Blocks {
+			for _, in := range b.Instrs {
+				switch x := in.(type) {
+				case *ssa.IndexAddr:
+					if isParam(x.X) {
+						okAll = false
+						r.bad(rule, fnName(cur.f)+"|reads|"+c.key(x, nil), c.instrPos(in), fnName(cur.f)+" reads an element of the pending-operator stack ("+c.key(x, nil)+"): what the production builds depends on the context around its window")
+					}
+				case *ssa.Index:
+					if isParam(x.X) {
+						okAll = false
+						r.bad(rule, fnName(cur.f)+"|reads|"+c.key(x, nil), c.instrPos(in), fnName(cur.f)+" reads an element of the pending-operator stack")
+					}
+				case *ssa.Range:
+					if isParam(x.X) {
+						okAll = false
+						r.bad(rule, fnName(cur.f)+"|ranges", c.instrPos(in), fnName(cur.f)+" iterates over the pending-operator stack")
+					}
+				case *ssa.Call:
+					g := x.Call.StaticCallee()
+					for j, a := range x.Call.Args {
+						if !isParam(a) {
+							continue
+						}
+						if bi, ok := x.Call.Value.(*ssa.Builtin); ok && (bi.Name() == "len" || bi.Name() == "cap") {
+							continue
+						}
+						if g != nil && inModule(g) && len(g.Blocks) > 0 && j < len(g.Params) {
+							work = append(work, fp{g, j})
+							continue
+						}
+						if g != nil && isDropHelper(g) {
+							continue
+						}
+						if g == nil && !x.Call.IsInvoke() {
+							// a reducer called through the list: covered as a reducer itself
+							continue
+						}
+						okAll = false
+						r.bad(rule, fnName(cur.f)+"|escapes|"+c.key(x.Call.Value, nil), c.instrPos(in), fnName(cur.f)+" hands the pending-operator stack to "+c.key(x.Call.Value, nil))
+					}
+				}
+			}
+		}
+		if okAll {
+			r.ok(rule, fnName(cur.f)+fmt.Sprintf("|$%d", cur.i), c.pos(cur.f.Pos()), "only measured, sliced, handed on or returned")
+		}
+	}
+	r.floor(rule, "functions receiving the operator stack", n, 14)
+}
